@@ -59,7 +59,7 @@ pub fn numbers(thorough: bool) -> Vec<(Value, String)> {
 }
 
 pub fn strings(thorough: bool) -> Vec<String> {
-    let mut v: Vec<String> = vec!["".into(), "a".into(), "b".into(), "A".into(), "aa".into(), "\u{e9}".into(), "\u{ffff}".into(), "\u{10000}".into()];
+    let mut v: Vec<String> = vec!["".into(), "a".into(), "b".into(), "A".into(), "aa".into(), "\u{e9}".into(), "\u{ffff}".into(), "\u{10000}".into(), "a".repeat(64), format!("{}b", "a".repeat(63)), "a".repeat(65)];
     if thorough {
         v.extend(["1".to_string(), "true".into(), "null".into(), "ab".into(), " ".into(), "a ".into(), "\u{7f}".into(), "\u{10ffff}".into(), "\u{e000}".into(), "\u{d7ff}".into()]);
     }
